@@ -35,8 +35,64 @@ STATEMENTS = [
     ("merge", "MERGE INTO T2 USING T1 ON T2.K = T1.I WHEN MATCHED THEN UPDATE SET W = T1.V WHEN NOT MATCHED THEN INSERT (K, W) VALUES (T1.I, T1.V)"),
     ("ctas", "CREATE OR REPLACE TABLE T6 AS SELECT I, V FROM T1"),
     ("drop", "DROP TABLE IF EXISTS T3"),
+    # appended later (indices above are referred to by committed replay cases)
+    ("create-table-other-database-comment", "CREATE TABLE IF NOT EXISTS DB2.S3.T7 (Q VARCHAR(9)) COMMENT = 'in db2'"),
+    ("comment-on-other-database", "COMMENT ON TABLE DB2.S3.T7 IS 'seven {n}'"),
+    ("create-schema-other-database", "CREATE SCHEMA IF NOT EXISTS DB2.S3"),
 ]
-MULTI_STEP = {"create-table-comment", "create-or-replace-lengths", "alter-add", "comment-on", "create-table-other-schema", "merge", "create-database"}
+MULTI_STEP = {"create-table-comment", "create-or-replace-lengths", "alter-add", "comment-on", "create-table-other-schema", "merge", "create-database", "create-table-other-database-comment", "comment-on-other-database"}
+SPELLINGS = {"upper": str.upper, "lower": str.lower, "mixed": str.capitalize}
+
+
+def _spell(case, which: int):
+    sp = case.get("spell") or ["upper", "upper"]
+    if not isinstance(sp, list) or len(sp) != 2 or any(x not in SPELLINGS for x in sp):
+        raise InvalidCase()
+    return sp[which]
+
+
+def _metadata_model(history, snaps):
+    """What a user must find recorded for the tables of the history, after each statement: [{(db, schema, table): comment}], and
+    declared VARCHAR lengths likewise.  Derived from the statements' text and from which tables existed (reference snapshots), and only
+    where that is unambiguous: a table whose comment went through CREATE TABLE IF NOT EXISTS on an existing table, or COMMENT ON a missing
+    table (listed C09/C07 findings), is marked None = not asserted from then on."""
+    UNK = "<not-asserted>"
+    comments: dict = {}
+    out = [dict(comments)]
+    for j, si in enumerate(history):
+        lab = STATEMENTS[si][0]
+        before = {(t[0], t[1].upper(), t[2]) for t in snaps[j]["tables"]}
+        after = {(t[0], t[1].upper(), t[2]) for t in snaps[j + 1]["tables"]}
+
+        def created(key, text):
+            if key in before:
+                comments[key] = UNK  # IF NOT EXISTS on an existing table: listed finding (comment overwritten)
+            elif key in after and comments.get(key) != UNK:
+                comments[key] = text
+
+        if lab == "create-table-comment":
+            created(("DB1", "S1", "T1"), "first")
+        elif lab == "create-table-other-schema":
+            created(("DB1", "S2", "T4"), "in s2")
+        elif lab == "create-table-other-database-comment":
+            created(("DB2", "S3", "T7"), "in db2")
+        elif lab == "comment-on":
+            key = ("DB1", "S1", "T1")
+            if key in before and comments.get(key) != UNK:
+                comments[key] = f"changed {j}"
+            elif key not in before:
+                comments[key] = UNK  # comment on a missing table is recorded (listed C07 finding) and re-attaches later
+        elif lab == "comment-on-other-database":
+            key = ("DB2", "S3", "T7")
+            if key in before and comments.get(key) != UNK:
+                comments[key] = f"seven {j}"
+            elif key not in before:
+                comments[key] = UNK
+        out.append(dict(comments))
+    return out
+
+
+DECLARED_LENGTHS = {("DB1", "S1", "T1", "V"): 10, ("DB1", "S1", "T3", "A"): 5, ("DB1", "S1", "T3", "B"): 7, ("DB2", "S3", "T7", "Q"): 9}
 END_MODES = ["clean-exit", "body-raises", "kill-before", "kill-after"]
 
 
@@ -64,6 +120,10 @@ def _valid_history(hist) -> bool:
 def _case(draw, tier):
     n = draw(st.integers(2, 10))
     hist, open_ = [], False
+    if draw(st.integers(0, 2)) == 0:
+        # objects with recorded metadata in a database that is not the session's current one need their containers first
+        hist = [LABEL_IDX[x] for x in ("create-database", "create-schema-other-database", "create-table-other-database-comment")]
+        n = max(2, n - 3)
     for _ in range(n):
         if open_:
             lab = draw(st.sampled_from(["insert", "insert-t2", "update", "delete", "merge", "commit", "commit", "rollback"]))
@@ -80,6 +140,8 @@ def _case(draw, tier):
         "points": draw(st.lists(st.tuples(st.sampled_from(["kill-before", "kill-after"]), st.integers(0, 200)).map(list), min_size=2, max_size=npoints)),
         "exit": draw(st.sampled_from(["clean-exit", "body-raises"])),
         "reconnect": draw(st.sampled_from(["same-options", "auto-create-off", "other-database-first"])),
+        # how the database name is written by the first process' connect() and by the later one (names are case-insensitive)
+        "spell": [draw(st.sampled_from(["upper", "upper", "lower", "mixed"])), draw(st.sampled_from(["upper", "upper", "lower", "mixed"]))],
     }
 
 
@@ -100,7 +162,7 @@ def _snapshot_all(fs) -> dict:
     return json.loads(json.dumps(out, default=str))
 
 
-def _child_history(dbdir: str, history: list[int], mode: str, point: int, out_path: str) -> None:
+def _child_history(dbdir: str, history: list[int], mode: str, point: int, out_path: str, spell: str = "upper") -> None:
     """Runs the history under fakesnow.patch(db_path); mode: reference | clean-exit | body-raises | kill-before | kill-after."""
     import snowflake.connector
 
@@ -126,7 +188,7 @@ def _child_history(dbdir: str, history: list[int], mode: str, point: int, out_pa
         with instr.installed(hook):
             with fakesnow.patch(db_path=dbdir):
                 fs = snowflake.connector.connect.side_effect.__self__
-                conn = snowflake.connector.connect(database="DB1", schema="S1")
+                conn = snowflake.connector.connect(database=SPELLINGS[spell]("DB1"), schema=SPELLINGS[spell]("S1"))
                 per_stmt.append(count["n"])
                 if mode == "reference":
                     mark = count["n"]
@@ -155,9 +217,8 @@ def _child_history(dbdir: str, history: list[int], mode: str, point: int, out_pa
         try:
             with fakesnow.patch(db_path=dbdir):
                 fs2 = snowflake.connector.connect.side_effect.__self__
-                for d in ("DB1", "DB2"):
-                    if os.path.exists(os.path.join(dbdir, f"{d}.db")):
-                        snowflake.connector.connect(database=d)
+                for d in sorted(_present(dbdir, ["DB1", "DB2"])):
+                    snowflake.connector.connect(database=d)
                 reopened = {"snap": _snapshot_all(fs2)}
         except Exception as e:
             reopened = {"error": f"{type(e).__module__}.{type(e).__name__}: {str(e)[:300]}"}
@@ -165,21 +226,42 @@ def _child_history(dbdir: str, history: list[int], mode: str, point: int, out_pa
         json.dump({"snaps": snaps, "calls_after_stmt": per_stmt, "reopened": reopened}, f)
 
 
-def _child_verify(dbdir: str, dbs: list[str], reconnect: str, out_path: str) -> None:
+def _present(dbdir: str, dbs: list[str]) -> set[str]:
+    """Databases that have a file under the path (whatever the letter case of the file name: names are case-insensitive)."""
+    have = {f[:-3].upper() for f in os.listdir(dbdir) if f.endswith(".db")}
+    return {d for d in dbs if d in have}
+
+
+def _child_verify(dbdir: str, dbs: list[str], reconnect: str, out_path: str, spell: str = "upper") -> None:
     import snowflake.connector
 
     import fakesnow
 
     kw = {"create_database_on_connect": True, "create_schema_on_connect": False} if reconnect == "auto-create-off" else {}
+    present = _present(dbdir, dbs)
+    # 1. what a user finds who connects to ONE database only (a later process need not open the others)
+    user: dict = {}
+    for d in sorted(present):
+        with fakesnow.patch(db_path=dbdir, **kw):
+            cur = snowflake.connector.connect(database=SPELLINGS[spell](d)).cursor()
+            try:
+                cur.execute(f"SELECT table_schema, table_name, comment FROM information_schema.tables WHERE table_catalog = '{d}' AND table_schema <> 'information_schema'")
+                comments = [list(r) for r in cur.fetchall()]
+                cur.execute(f"SELECT table_schema, table_name, column_name, character_maximum_length FROM information_schema.columns WHERE table_catalog = '{d}' AND table_schema <> 'information_schema'")
+                lengths = [list(r) for r in cur.fetchall()]
+                user[d] = {"comments": comments, "lengths": lengths}
+            except Exception as e:
+                user[d] = {"error": f"{type(e).__module__}.{type(e).__name__}: {str(e)[:300]}"}
+    # 2. the engine-level state with every database of the path attached
     with fakesnow.patch(db_path=dbdir, **kw):
         fs = snowflake.connector.connect.side_effect.__self__
         order = list(reversed(dbs)) if reconnect == "other-database-first" else dbs
         for d in order:
-            if os.path.exists(os.path.join(dbdir, f"{d}.db")):
-                snowflake.connector.connect(database=d)
+            if d in present:
+                snowflake.connector.connect(database=SPELLINGS[spell](d))
         snap = _snapshot_all(fs)
     with open(out_path, "w") as f:
-        json.dump({"snap": snap}, f)
+        json.dump({"snap": snap, "user": json.loads(json.dumps(user, default=str))}, f)
 
 
 def _fork(fn, *args) -> tuple[int, str]:
@@ -233,7 +315,8 @@ def run_durability(case, ctx: Ctx) -> None:
         # 1. reference run: committed state after every statement, and how many engine calls each statement took
         refdir = fresh("ref")
         out = os.path.join(root, "ref.json")
-        st_, err = _fork(_child_history, refdir, history, "reference", 0, out)
+        sp_first, sp_verify = _spell(case, 0), _spell(case, 1)
+        st_, err = _fork(_child_history, refdir, history, "reference", 0, out, sp_first)
         if st_ != 0:
             raise RuntimeError(f"reference child failed ({st_}): {err[-1500:]}")
         ref = json.load(open(out))
@@ -241,20 +324,52 @@ def run_durability(case, ctx: Ctx) -> None:
         total = calls[-1]
         dbs = ["DB1", "DB2"]
         labels = [STATEMENTS[i][0] for i in history]
+        meta = _metadata_model(history, snaps)
+        ctx.cls(f"spelling:{'same' if sp_first == sp_verify else 'different'}")
+        user_view: dict = {}
 
         def verify(dbdir: str, tag: str):
             vout = os.path.join(root, f"v-{tag}.json")
-            s2, e2 = _fork(_child_verify, dbdir, dbs, case["reconnect"], vout)
+            s2, e2 = _fork(_child_verify, dbdir, dbs, case["reconnect"], vout, sp_verify)
             if s2 != 0:
                 return None, f"verifier exit {s2}: {e2[-800:]}"
-            return json.load(open(vout))["snap"], ""
+            res = json.load(open(vout))
+            user_view[tag] = res.get("user") or {}
+            return res["snap"], ""
 
         def present(dbdir: str) -> set[str]:
-            return {d for d in dbs if os.path.exists(os.path.join(dbdir, f"{d}.db"))}
+            return _present(dbdir, dbs)
+
+        def metadata_problem(tag: str, committed: dict, states: list[int]) -> str:
+            """'' if what a single-database reader found equals the model after one of the given statement indices."""
+            uv = user_view.get(tag) or {}
+            for d, res in sorted(uv.items()):
+                if "error" in res:
+                    return f"reading information_schema of {d} failed: {res['error']}"
+            problems = []
+            for jx in states:
+                bad = []
+                tables_then = {(t[0], t[1].upper(), t[2]) for t in snaps[jx]["tables"]}
+                for key, want in meta[jx].items():
+                    if want == "<not-asserted>" or key not in tables_then or key[0] not in uv:
+                        continue
+                    got = [r[2] for r in uv[key[0]]["comments"] if (r[0].upper(), r[1]) == key[1:]]
+                    if got != [want]:
+                        bad.append(f"comment of {'.'.join(key)}: found {got}, committed {want!r}")
+                for (db_, sch, tab, col), n_ in DECLARED_LENGTHS.items():
+                    if (db_, sch, tab) not in tables_then or db_ not in uv:
+                        continue
+                    got = [r[3] for r in uv[db_]["lengths"] if (r[0].upper(), r[1], r[2]) == (sch, tab, col)]
+                    if got and got != [n_]:
+                        bad.append(f"length of {db_}.{sch}.{tab}.{col}: found {got}, declared {n_}")
+                if not bad:
+                    return ""
+                problems.append(f"vs state after statement {jx}: " + "; ".join(bad[:4]))
+            return " | ".join(problems)
 
         # 2. clean exit / exception in the body: everything committed is there, nothing else
         edir = fresh("exit")
-        st_, err = _fork(_child_history, edir, history, case["exit"], 0, os.path.join(root, "exit.json"))
+        st_, err = _fork(_child_history, edir, history, case["exit"], 0, os.path.join(root, "exit.json"), sp_first)
         ctx.cls(f"end:{case['exit']}", f"reconnect:{case['reconnect']}")
         if st_ != 0:
             ctx.fail(f"C18|{case['exit']}|first-process-failed", f"history {labels}: exit {st_}: {err[-600:]}")
@@ -268,7 +383,9 @@ def run_durability(case, ctx: Ctx) -> None:
             if got is None:
                 ctx.fail(f"C18|{case['exit']}|verifier-cannot-start", f"history {labels}: {verr}")
             elif _norm(got, present(edir)) != _norm(snaps[-1], present(edir)):
-                ctx.fail(f"C18|{case['exit']}|state-differs-from-committed", f"history {labels}: {_diff(snaps[-1], got)}")
+                ctx.fail(f"C18|{case['exit']}|state-differs-from-committed", f"history {labels} (connect spelled {sp_first} then {sp_verify}): {_diff(snaps[-1], got)}")
+            elif mp := metadata_problem("exit", snaps[-1], [len(history)]):
+                ctx.fail(f"C18|{case['exit']}|metadata-not-found-by-single-database-reader", f"history {labels}: {mp}")
             if present(edir) != {d for d in dbs if any(x[0] == d for x in snaps[-1]["schemas"])}:
                 ctx.fail(f"C18|{case['exit']}|database-files", f"files for {sorted(present(edir))}, committed databases {sorted({x[0] for x in snaps[-1]['schemas']})}")
         # 3. kills at engine-call boundaries
@@ -285,7 +402,7 @@ def run_durability(case, ctx: Ctx) -> None:
             first_call_of_j = (calls[j - 1] if j > 0 else 0) + 1
             last_call_of_j = calls[j]
             kdir = fresh(f"k{len(seen)}")
-            st_, err = _fork(_child_history, kdir, history, mode, point, os.path.join(root, f"k{len(seen)}.json"))
+            st_, err = _fork(_child_history, kdir, history, mode, point, os.path.join(root, f"k{len(seen)}.json"), sp_first)
             if st_ != -signal.SIGKILL:
                 raise RuntimeError(f"crash child was not killed (status {st_}) at {mode} {point}/{total}: {err[-800:]}")
             label = "connect" if j == 0 else labels[j - 1]
@@ -303,12 +420,15 @@ def run_durability(case, ctx: Ctx) -> None:
                     ctx.fail("C18|kill|objects-from-nowhere|connect", f"{got['tables']}")
                 continue
             elif mode == "kill-before" and point == first_call_of_j:
-                allowed = [snaps[j - 1]]
+                allowed_idx = [j - 1]
             elif mode == "kill-after" and point == last_call_of_j:
-                allowed = [snaps[j]]
+                allowed_idx = [j]
             else:
-                allowed = [snaps[j - 1], snaps[j]]
+                allowed_idx = [j - 1, j]
+            allowed = [snaps[x] for x in allowed_idx]
             have = present(kdir)
+            if any(_norm(got, have) == _norm(a, have) for a in allowed) and (mp := metadata_problem(f"k{len(seen)}", {}, allowed_idx)):
+                ctx.fail(f"C18|kill|{'torn-state' if inside else 'metadata-not-found-by-single-database-reader'}|{label}", f"history {labels}, {mode} engine call {point}/{total} (in {label}): {mp}")
             if not any(_norm(got, have) == _norm(a, have) for a in allowed):
                 what = "torn-state" if inside else "committed-state-lost-or-changed"
                 ctx.fail(
